@@ -75,6 +75,8 @@ def del (k : Int) (d : Nat) : OMap → OMap
 def WF (m : OMap) : Prop :=
   m.keys.Pairwise (· < ·) ∧ ∀ e ∈ m, e.2 ≠ [] ∧ e.2.Nodup
 
+instance (m : OMap) : Decidable (WF m) := by unfold WF; exact inferInstance
+
 -- ------------------------------------------------------------------------------------------
 -- range_keys
 -- ------------------------------------------------------------------------------------------
